@@ -255,6 +255,35 @@ def c02_s(run, fx):
         run.fail(rule, "cached-lookups-shrinks", "cached_lookups is shrunk: %s (cached indices would dangle)" % bad, "")
     else:
         run.ok(rule, "cached_lookups is never shrunk")
+    # every index remembered in lookups_index is 0 (the sentinel) or the length of cached_lookups read before the push of the new list
+    n = 0
+    for fb in fx.bodies:
+        if not fb.root.endswith("get_lookups_cache_index"):
+            continue
+        prov2 = sym.Prov(fb)
+        pushes = [bj for bj, t2 in fb.calls() if (t2["callee"].get("path") or "").endswith("Vec::<T, A>::push")
+                  and any(x[0] == "field" and x[2] == "cached_lookups" for x in sym.walk(prov2.op(t2["args"][0])))]
+        for bi, t in fb.calls():
+            p = t["callee"].get("path") or ""
+            if not p.endswith("VacantEntry::<'a, K, V>::insert") and not p.endswith("VacantEntry::<'a, K, V, A>::insert") and not (p.endswith("::insert") and "VacantEntry" in p):
+                continue
+            n += 1
+            v = sym.strip(prov2.op(t["args"][1]))
+            where = "%s: index stored in lookups_index" % fb.path
+            if v[0] == "c" and v[1] == 0:
+                run.ok(rule, "%s is the sentinel 0" % where)
+                continue
+            lens = [x for x in sym.walk(v) if x[0] == "call" and (x[4] or x[1] or "").endswith("::len")]
+            is_len = v[0] == "call" and (v[4] or v[1] or "").endswith("::len") and any(x[0] == "field" and x[2] == "cached_lookups" for x in sym.walk(v))
+            if is_len:
+                lb = v[3]
+                if any(fb.dominates(lb, pb) and fb.dominates(pb, bi) for pb in pushes):
+                    run.ok(rule, "%s is cached_lookups.len() read before the push of the new list" % where)
+                    continue
+            run.fail(rule, "lookups-index-value:%s" % fb.root, "%s is %s: not the sentinel 0 and not cached_lookups.len() taken before the push "
+                     "that dominates the insert - the two collections fall out of step" % (where, sym.show(v)[:100]), fb.loc(t))
+    if n == 0 and fx.body("gsub::get_lookups_cache_index") is not None:
+        run.anchor_missing(rule, "VacantEntry::insert in get_lookups_cache_index")
 
 
 ATTACH_VARIANTS = ("MarkAnchor", "MarkOverprint", "CursiveAnchor")
